@@ -26,9 +26,9 @@ DESELECT = [
 ]
 
 
-def scratch():
+def scratch(commit="HEAD"):
     d = tempfile.mkdtemp(prefix="selftest_", dir="/tmp")
-    subprocess.check_call(["git", "-C", "/repo", "worktree", "add", "-q", "--detach", d + "/repo", "HEAD"], stdout=subprocess.DEVNULL, stderr=subprocess.DEVNULL)
+    subprocess.check_call(["git", "-C", "/repo", "worktree", "add", "-q", "--detach", d + "/repo", commit], stdout=subprocess.DEVNULL, stderr=subprocess.DEVNULL)
     return d
 
 
@@ -63,6 +63,20 @@ def one(entry, tier, shards):
     try:
         if patch:
             r = subprocess.run(["git", "-C", repo, "apply", patch], capture_output=True, text=True)
+            base = None
+            if r.returncode != 0:
+                # a later fix: commit touched the same lines: the change is applied to the commit it was written for
+                # (meta.json: base_commit), i.e. to a tree that lacks the later fixes
+                try:
+                    base = json.load(open(os.path.join(os.path.dirname(patch), "meta.json"))).get("base_commit")
+                except Exception:  # noqa: BLE001
+                    base = None
+                if base:
+                    cleanup(d)
+                    d = scratch(base)
+                    repo = d + "/repo"
+                    r = subprocess.run(["git", "-C", repo, "apply", patch], capture_output=True, text=True)
+                    out["applied_on"] = base
             if r.returncode != 0:
                 out["status"] = "does_not_apply"
                 out["error"] = r.stderr[-300:]
